@@ -388,6 +388,13 @@ def run(R):
                 return None if v_ is None else (not v_)
             if isinstance(e, ast.Constant) and isinstance(e.value, bool):
                 return e.value
+            if isinstance(e, ast.Call) and isinstance(e.func, ast.Name) and e.func.id == 'bool' and len(e.args) == 1:
+                return loc_atom(e.args[0])
+            if isinstance(e, ast.BoolOp):
+                vs_ = [loc_atom(v_) for v_ in e.values]
+                if isinstance(e.op, ast.Or):
+                    return True if any(v_ is True for v_ in vs_) else (False if all(v_ is False for v_ in vs_) else None)
+                return False if any(v_ is False for v_ in vs_) else (True if all(v_ is True for v_ in vs_) else None)
             t = full_text(mk, e)
             if t.endswith('.isLocalFace()'):
                 return local
